@@ -102,7 +102,7 @@ def run(prop, tier):
         if a != b:
             raise HarnessError("determinism self-test failed for engine C batch on %s" % interp)
 
-    tested = rejected = objects = interrupt_points = 0
+    tested = rejected = objects = interrupt_points = held_encodes = 0
     classes, verdicts, unknown_hit = {}, {}, {}
     distinct = {}
     viols = []
@@ -116,6 +116,7 @@ def run(prop, tier):
                 rejected += run["rejected_by_cpython"]
                 objects += run["objects"]
                 interrupt_points += run.get("interrupt_points", 0)
+                held_encodes += run.get("held_data_encodes", 0)
                 hubutil.merge_counts(classes, run["classes"])
                 hubutil.merge_counts(verdicts, run["verdicts"])
                 for b, n in run["bits_unknown_hit"].items():
@@ -207,6 +208,7 @@ def run(prop, tier):
         "header_alterations_accepted_by_cpython": tested,
         "header_alterations_refused_by_cpython": rejected,
         "interrupted_history_abort_points": interrupt_points,
+        "held_data_encoded_after_later_alterations_and_interruptions": held_encodes,
         "verdicts": verdicts,
         "alteration_classes": classes,
         "unknown_bit_flips_per_interpreter_and_bit": unknown_hit,
